@@ -356,4 +356,216 @@ theorem p2d_curvature_first_order (R φ : ℝ) (hR : 0 < R) (amps : List ℝ) :
         funext ε; exact p2d_curvature_scaled R ε φ amps
       rw [e]; exact this
 
+/-! ### axisymmetric droplets: the reported curvature is the first-order mean curvature of the surface of revolution -/
+
+theorem esum_add {β : Type} (g h : ℕ → β → ℝ) (xs : List β) (start : ℕ) :
+    esum (fun n x => g n x + h n x) xs start = esum g xs start + esum h xs start := by
+  induction xs generalizing start with
+  | nil => simp [esum]
+  | cons x xs ih => simp [esum, ih]; ring
+
+theorem esum_map_scale (g : ℕ → ℝ) (ε : ℝ) (amps : List ℝ) (start : ℕ) :
+    esum (fun l a => a * g l) (amps.map (ε * ·)) start = ε * esum (fun l a => a * g l) amps start := by
+  induction amps generalizing start with
+  | nil => simp [esum]
+  | cons x xs ih => simp [esum, ih]; ring
+
+/-- **The reported curvature of an axisymmetric perturbed droplet is the first-order mean curvature of its own surface.**
+The surface of `PerturbedDroplet3DAxisSym` is the surface of revolution with polar profile `r(θ) = interface_distance(θ)` (regenerated
+`axi_distance`); `Y l`, `Y1 l`, `Y2 l` are the values of the degree-`l` harmonic and of its first and second `θ`-derivative in the direction
+considered, and the only property of the harmonics used is their defining differential equation — the spherical Laplacian eigen-equation
+`Y'' + cot θ · Y' = −l(l+1) Y` (Legendre's equation in the polar angle).  With the amplitudes scaled by `ε`:
+
+  * at `ε = 0` both the true mean curvature `revMeanCurv` and the reported curvature (regenerated `axi_curvature`) equal `1/R`;
+  * their derivatives with respect to `ε` at `ε = 0` coincide: `(1/R) Σ_l a_l (l² + l − 2)/2 · Y_l`.
+
+So the weight `(l² + l − 2)/2`, the sum over ALL modes and the overall `1/R` of the code (defects D7/D8 were exactly these) are what geometry
+demands — for every radius, every number of modes, every direction. -/
+theorem axi_curvature_first_order (R c : ℝ) (hR : 0 < R) (amps : List ℝ) (Y Y1 Y2 : ℕ → ℝ) (deg : ℕ → ℕ)
+    (heig : ∀ l : ℕ, Y2 l + c * Y1 l = -((l : ℝ) * (l + 1)) * Y l) :
+    let r : ℝ → ℝ := fun ε => axi_distance R (amps.map (ε * ·)) Y deg
+    let r1 : ℝ → ℝ := fun ε => R * (ε * esum (fun l a => a * Y1 l) amps 1)
+    let r2 : ℝ → ℝ := fun ε => R * (ε * esum (fun l a => a * Y2 l) amps 1)
+    revMeanCurv (r 0) (r1 0) (r2 0) c = 1 / R ∧ axi_curvature R (amps.map ((0 : ℝ) * ·)) Y deg = 1 / R ∧
+    ∃ d, HasDerivAt (fun ε => revMeanCurv (r ε) (r1 ε) (r2 ε) c) d 0 ∧
+         HasDerivAt (fun ε => axi_curvature R (amps.map (ε * ·)) Y deg) d 0 := by
+  intro r r1 r2
+  set U := esum (fun l a => a * Y l) amps 1 with hU
+  set U1 := esum (fun l a => a * Y1 l) amps 1 with hU1
+  set U2 := esum (fun l a => a * Y2 l) amps 1 with hU2
+  set H := esum (fun l a => a * hdeg l * Y l) amps 1 with hH
+  have hr : ∀ ε, r ε = R * (1 + ε * U) := by
+    intro ε
+    simp only [r, (p3d_distance_eq_spec R _ Y deg).2, esum_map_scale]
+    rfl
+  have hcode : ∀ ε, axi_curvature R (amps.map (ε * ·)) Y deg = 1 / R + ε * H / R := by
+    intro ε
+    rw [axi_curvature_eq_spec]
+    have : esum (fun l a => a * hdeg l * Y l) (amps.map (ε * ·)) 1 = ε * H := by
+      have := esum_map_scale (fun l => hdeg l * Y l) ε amps 1
+      simp only [← mul_assoc] at this
+      exact this
+    rw [this]
+  -- the eigen-equation, summed over the modes
+  have hsum : 2 * U + U2 + c * U1 = -2 * H := by
+    have e1 : U2 + c * U1 = esum (fun l a => a * (Y2 l + c * Y1 l)) amps 1 := by
+      rw [hU2, hU1, ← esum_smul, ← esum_add]
+      congr 1; funext l a; ring
+    have e2 : esum (fun l a => a * (Y2 l + c * Y1 l)) amps 1 = esum (fun l a => a * (-((l : ℝ) * (l + 1)) * Y l)) amps 1 := by
+      congr 1; funext l a; rw [heig l]
+    have e3 : 2 * U + esum (fun l a => a * (-((l : ℝ) * (l + 1)) * Y l)) amps 1 = -2 * H := by
+      rw [hU, hH, ← esum_smul, ← esum_smul, ← esum_add]
+      congr 1; funext l a; simp only [hdeg]; ring
+    linarith
+  refine ⟨?_, ?_, ?_⟩
+  · simp only [hr, r1, r2, zero_mul, add_zero, mul_one, mul_zero]
+    exact (revMeanCurv_first_order R 0 0 0 c hR).1
+  · rw [hcode]; simp
+  · refine ⟨H / R, ?_, ?_⟩
+    · have h := (revMeanCurv_first_order R U U1 U2 c hR).2
+      have e : (fun ε => revMeanCurv (r ε) (r1 ε) (r2 ε) c) = fun ε => revMeanCurv (R * (1 + ε * U)) (R * (ε * U1)) (R * (ε * U2)) c := by
+        funext ε; simp only [hr, r1, r2]; rfl
+      rw [e]
+      refine h.congr_deriv ?_
+      rw [hsum]; field_simp
+    · have e : (fun ε => axi_curvature R (amps.map (ε * ·)) Y deg) = fun ε => 1 / R + H / R * ε + 0 * ε ^ 2 := by
+        funext ε; rw [hcode]; ring
+      rw [e]
+      exact quad_deriv (1 / R) (H / R) 0
+
+
+/-- **The reported curvature of a perturbed 3-D droplet is the first-order mean curvature of its own surface.**
+The surface of `PerturbedDroplet3D` is the radial graph `r(θ, φ) e_r` with `r = interface_distance` (regenerated `p3d_distance`); `Y k`,
+`Yt k`, `Yp k`, `Ytt k`, `Ytp k`, `Ypp k` are the values of mode `k` and of its partial derivatives in the direction considered (`s = sin θ > 0`,
+`c = cos θ`), and the only property of the harmonics used is that mode `k` is an eigenfunction of the spherical Laplacian with eigenvalue
+`−l(l+1)`, `l = deg k` its degree:  `Y_θθ + cot θ · Y_θ + Y_φφ / sin²θ = −l(l+1) Y`.  With the amplitudes scaled by `ε`, the true mean curvature
+(`radialMeanCurv`: fundamental forms of the radial graph, cross-checked against the surface of revolution by `radialMeanCurv_axisym`) and the
+reported curvature (regenerated `p3d_curvature`) both equal `1/R` at `ε = 0` and have the same `ε`-derivative there,
+`(1/R) Σ_k a_k (l_k² + l_k − 2)/2 · Y_k` — for every radius, every number and combination of modes, every direction off the poles. -/
+theorem p3d_curvature_first_order (R s c : ℝ) (hR : 0 < R) (hs : 0 < s) (amps : List ℝ) (Y Yt Yp Ytt Ytp Ypp : ℕ → ℝ) (deg : ℕ → ℕ)
+    (heig : ∀ k : ℕ, Ytt k + c / s * Yt k + Ypp k / s ^ 2 = -((deg k : ℝ) * (deg k + 1)) * Y k) :
+    let r : ℝ → ℝ := fun ε => p3d_distance R (amps.map (ε * ·)) Y deg
+    let d1 : (ℕ → ℝ) → ℝ → ℝ := fun Z ε => R * (ε * esum (fun k a => a * Z k) amps 1)
+    radialMeanCurv (r 0) (d1 Yt 0) (d1 Yp 0) (d1 Ytt 0) (d1 Ytp 0) (d1 Ypp 0) s c = 1 / R ∧
+    p3d_curvature R (amps.map ((0 : ℝ) * ·)) Y deg = 1 / R ∧
+    ∃ d, HasDerivAt (fun ε => radialMeanCurv (r ε) (d1 Yt ε) (d1 Yp ε) (d1 Ytt ε) (d1 Ytp ε) (d1 Ypp ε) s c) d 0 ∧
+         HasDerivAt (fun ε => p3d_curvature R (amps.map (ε * ·)) Y deg) d 0 := by
+  intro r d1
+  set U := esum (fun k a => a * Y k) amps 1 with hU
+  set Ut := esum (fun k a => a * Yt k) amps 1 with hUt
+  set Upp := esum (fun k a => a * Ypp k) amps 1 with hUpp
+  set Utt := esum (fun k a => a * Ytt k) amps 1 with hUtt
+  set H := esum (fun k a => a * hdeg (deg k) * Y k) amps 1 with hH
+  have hr : ∀ ε, r ε = R * (1 + ε * U) := by
+    intro ε
+    simp only [r, (p3d_distance_eq_spec R _ Y deg).1, esum_map_scale]
+    rfl
+  have hcode : ∀ ε, p3d_curvature R (amps.map (ε * ·)) Y deg = 1 / R + ε * H / R := by
+    intro ε
+    rw [p3d_curvature_eq_spec]
+    have : esum (fun k a => a * hdeg (deg k) * Y k) (amps.map (ε * ·)) 1 = ε * H := by
+      have := esum_map_scale (fun k => hdeg (deg k) * Y k) ε amps 1
+      simp only [← mul_assoc] at this
+      exact this
+    rw [this]
+  have hsum : 2 * U + (Utt + c / s * Ut + Upp / s ^ 2) = -2 * H := by
+    have e1 : Utt + c / s * Ut + Upp / s ^ 2 = esum (fun k a => a * (Ytt k + c / s * Yt k + Ypp k / s ^ 2)) amps 1 := by
+      have h3 : Upp / s ^ 2 = (1 / s ^ 2) * Upp := by ring
+      rw [h3, hUtt, hUt, hUpp, ← esum_smul, ← esum_smul, ← esum_add, ← esum_add]
+      congr 1; funext k a; ring
+    have e2 : esum (fun k a => a * (Ytt k + c / s * Yt k + Ypp k / s ^ 2)) amps 1
+        = esum (fun k a => a * (-((deg k : ℝ) * (deg k + 1)) * Y k)) amps 1 := by
+      congr 1; funext k a; rw [heig k]
+    have e3 : 2 * U + esum (fun k a => a * (-((deg k : ℝ) * (deg k + 1)) * Y k)) amps 1 = -2 * H := by
+      rw [hU, hH, ← esum_smul, ← esum_smul, ← esum_add]
+      congr 1; funext k a; simp only [hdeg]; ring
+    linarith
+  refine ⟨?_, ?_, ?_⟩
+  · simp only [hr, d1, zero_mul, add_zero, mul_one, mul_zero]
+    exact (radialMeanCurv_first_order R 0 0 0 0 0 0 s c hR hs).1
+  · rw [hcode]; simp
+  · refine ⟨H / R, ?_, ?_⟩
+    · have h := (radialMeanCurv_first_order R U Ut (esum (fun k a => a * Yp k) amps 1) Utt (esum (fun k a => a * Ytp k) amps 1) Upp s c hR hs).2
+      have e : (fun ε => radialMeanCurv (r ε) (d1 Yt ε) (d1 Yp ε) (d1 Ytt ε) (d1 Ytp ε) (d1 Ypp ε) s c) = fun ε =>
+          radialMeanCurv (R * (1 + ε * U)) (R * (ε * Ut)) (R * (ε * esum (fun k a => a * Yp k) amps 1)) (R * (ε * Utt))
+            (R * (ε * esum (fun k a => a * Ytp k) amps 1)) (R * (ε * Upp)) s c := by
+        funext ε; simp only [hr, d1]; rfl
+      rw [e]
+      refine h.congr_deriv ?_
+      rw [hsum]; field_simp
+    · have e : (fun ε => p3d_curvature R (amps.map (ε * ·)) Y deg) = fun ε => 1 / R + H / R * ε + 0 * ε ^ 2 := by
+        funext ε; rw [hcode]; ring
+      rw [e]
+      exact quad_deriv (1 / R) (H / R) 0
+
+section axivolume
+open intervalIntegral MeasureTheory
+
+theorem esum_profile_mean_zero (Y Y1 Y2 : ℕ → ℝ → ℝ)
+    (hY : ∀ l, 1 ≤ l → (∀ t, HasDerivAt (Y l) (Y1 l t) t) ∧ (∀ t, HasDerivAt (Y1 l) (Y2 l t) t) ∧ Continuous (Y2 l) ∧
+      ∀ t, sin t * Y2 l t + cos t * Y1 l t = -((l : ℝ) * (l + 1)) * (sin t * Y l t))
+    (amps : List ℝ) (start : ℕ) (hs : 1 ≤ start) :
+    Continuous (fun t => esum (fun l a => a * Y l t) amps start) ∧
+    ∫ t in (0 : ℝ)..π, esum (fun l a => a * Y l t) amps start * sin t = 0 := by
+  induction amps generalizing start with
+  | nil => simp [esum, continuous_const]
+  | cons a rest ih =>
+    obtain ⟨hc, hi⟩ := ih (start + 1) (by omega)
+    obtain ⟨h1, h2, h3, h4⟩ := hY start hs
+    have hYc : Continuous (Y start) := continuous_iff_continuousAt.mpr fun t => (h1 t).continuousAt
+    have hz := zonal_mean_zero (Y start) (Y1 start) (Y2 start) start hs h1 h2 h3 h4
+    refine ⟨?_, ?_⟩
+    · simp only [esum]; exact (continuous_const.mul hYc).add hc
+    · simp only [esum]
+      have e : (fun t => (a * Y start t + esum (fun l a => a * Y l t) rest (start + 1)) * sin t) = fun t =>
+          a * (Y start t * sin t) + esum (fun l a => a * Y l t) rest (start + 1) * sin t := by funext t; ring
+      have i1 : IntervalIntegrable (fun t => a * (Y start t * sin t)) volume 0 π :=
+        (show Continuous fun t => a * (Y start t * sin t) from continuous_const.mul (hYc.mul continuous_sin)).intervalIntegrable _ _
+      have i2 : IntervalIntegrable (fun t => esum (fun l a => a * Y l t) rest (start + 1) * sin t) volume 0 π :=
+        (show Continuous fun t => esum (fun l a => a * Y l t) rest (start + 1) * sin t from hc.mul continuous_sin).intervalIntegrable _ _
+      rw [e, intervalIntegral.integral_add i1 i2, intervalIntegral.integral_const_mul, hz, hi]
+      ring
+
+/-- **The volume of an axisymmetric perturbed droplet has no first-order term — `volume_approx` is the sphere's volume for a reason.**
+The solid bounded by the surface of `PerturbedDroplet3DAxisSym` (polar profile = regenerated `axi_distance`, now as a function of the polar angle:
+`Y l t` is the degree-`l` harmonic at `θ = t`) has the volume `revVolume`.  Using only the eigen-equation of the harmonics (as for the curvature) —
+which forces every zonal harmonic of degree `l ≥ 1` to have zero mean over the sphere (`zonal_mean_zero`) — the true volume at `ε = 0` is the
+reported `axi_volume_approx`, and its `ε`-derivative at `0` vanishes, like that of the reported value, which does not depend on the amplitudes:
+the spurious first-order term of defect D9 contradicts geometry. -/
+theorem axi_volume_first_order (R : ℝ) (amps : List ℝ) (Y Y1 Y2 : ℕ → ℝ → ℝ) (deg : ℕ → ℕ)
+    (hY : ∀ l, 1 ≤ l → (∀ t, HasDerivAt (Y l) (Y1 l t) t) ∧ (∀ t, HasDerivAt (Y1 l) (Y2 l t) t) ∧ Continuous (Y2 l) ∧
+      ∀ t, sin t * Y2 l t + cos t * Y1 l t = -((l : ℝ) * (l + 1)) * (sin t * Y l t)) :
+    revVolume (fun t => axi_distance R (amps.map ((0 : ℝ) * ·)) (fun l => Y l t) deg) = axi_volume_approx R amps ∧
+    HasDerivAt (fun ε : ℝ => revVolume (fun t => axi_distance R (amps.map (ε * ·)) (fun l => Y l t) deg)) 0 0 ∧
+    HasDerivAt (fun ε : ℝ => axi_volume_approx R (amps.map (ε * ·))) 0 0 := by
+  obtain ⟨hc, hm⟩ := esum_profile_mean_zero Y Y1 Y2 hY amps 1 le_rfl
+  have hprof : ∀ ε t, axi_distance R (amps.map (ε * ·)) (fun l => Y l t) deg = R * (1 + ε * esum (fun l a => a * Y l t) amps 1) := by
+    intro ε t
+    rw [(p3d_distance_eq_spec R _ (fun l => Y l t) deg).2, esum_map_scale]
+  obtain ⟨hv0, hv1⟩ := revVolume_first_order R (fun t => esum (fun l a => a * Y l t) amps 1) hc hm
+  refine ⟨?_, ?_, ?_⟩
+  · have e : (fun t => axi_distance R (amps.map ((0 : ℝ) * ·)) (fun l => Y l t) deg) = fun _ => R := by
+      funext t; rw [hprof]; ring
+    rw [e, hv0, (volume_approx_eq_spec R amps).2]
+  · have e : (fun ε : ℝ => revVolume (fun t => axi_distance R (amps.map (ε * ·)) (fun l => Y l t) deg)) =
+        fun ε => revVolume (fun t => R * (1 + ε * esum (fun l a => a * Y l t) amps 1)) := by
+      funext ε; congr 1; funext t; exact hprof ε t
+    rw [e]; exact hv1
+  · have e : (fun ε : ℝ => axi_volume_approx R (amps.map (ε * ·))) = fun _ => 4 / 3 * Real.pi * R ^ 3 := by
+      funext ε; exact (volume_approx_eq_spec R _).2
+    rw [e]; exact hasDerivAt_const _ _
+
+end axivolume
+
+/-- non-vacuity: the degree-2 zonal harmonic `(3cos²θ − 1)/2` on the equator (`cot θ = 0`): value −½, first derivative 0, second derivative 3,
+and `3 = −2·3·(−½)` — the eigen-equation holds, the mode contributes `h(2) = 2` times its value -/
+example : ∃ d : ℝ, HasDerivAt (fun ε : ℝ => axi_curvature (2 : ℝ) (([0, 1] : List ℝ).map (ε * ·)) (fun l => if l = 2 then -1/2 else 0) (fun l => l)) d 0 ∧ d = -1/2 := by
+  obtain ⟨_, _, d, h1, h2⟩ := axi_curvature_first_order (2 : ℝ) 0 (by norm_num) ([0, 1] : List ℝ) (fun l => if l = 2 then -1/2 else 0) (fun _ => 0)
+    (fun l => if l = 2 then 3 else 0) (fun l => l) (by intro l; by_cases h : l = 2 <;> simp [h]; norm_num)
+  refine ⟨d, h2, ?_⟩
+  have e : (fun ε : ℝ => axi_curvature (2 : ℝ) (([0, 1] : List ℝ).map (ε * ·)) (fun l => if l = 2 then -1/2 else 0) (fun l => l)) = fun ε => 1 / 2 + (-1/2) * ε + 0 * ε ^ 2 := by
+    funext ε; rw [axi_curvature_eq_spec]; simp [esum, hdeg]; ring
+  rw [e] at h2
+  exact h2.unique (DV.Fourier.quad_deriv _ _ _)
+
 end DV.C13
